@@ -141,6 +141,22 @@ def configs(tier):
         for text in (False, True):
             for body in ('small', 'none'):
                 out.append(dict(base, overwrite=False, dest_kind=kind, text_mode=text, body=body))
+    # the explicit form of the API - setup(), write to part_file, __exit__(None, None, None) or __exit__(*exc_info) -
+    # once, and twice on one object
+    for body in ('small', 'raises'):
+        for dest in (False, True):
+            out.append(dict(base, dest_present=dest, body=body, manual=True))
+            out.append(dict(base, dest_present=dest, body=body, manual=True, reuse=True))
+    # requested modes with bits above 0o777 (sticky; as root also set-gid / set-uid)
+    if os.geteuid() == 0:
+        for perms in (0o1644, 0o2750, 0o4755):
+            for dest in (False, True):
+                out.append(dict(base, file_perms=perms, dest_present=dest))
+                out.append(dict(base, file_perms=perms, dest_present=dest, body='raises'))
+    # a pre-existing part file that is old (two days): age is no licence to reuse or remove it
+    for overwrite_part in (False, True):
+        for body in ('small', 'raises'):
+            out.append(dict(base, part_present=True, part_age=2 * 86400, overwrite_part=overwrite_part, body=body))
     # one AtomicSaver object used for two saves in a row (the destination is chmod-ed to 0o611 in between): the second
     # save is the one explored
     for perms in (None, 0o600):
@@ -184,6 +200,10 @@ class Scenario:
                 with open(self.part, 'wb') as f:
                     f.write(FOREIGN)
                 os.chmod(self.part, FOREIGN_MODE)
+                if self.cfg.get('part_age'):
+                    import time
+                    t0 = time.time() - self.cfg['part_age']
+                    os.utime(self.part, (t0, t0))
         finally:
             os.umask(old)
         self.other_created = False
@@ -238,8 +258,13 @@ class Scenario:
                 # first save through the same object, undisturbed and unobserved; then the destination's mode changes
                 env.closed = True
                 try:
-                    with saver as f0:
-                        f0.write('first save\n' if cfg['text_mode'] else b'first save\n')
+                    if cfg.get('manual'):
+                        saver.setup()
+                        saver.part_file.write('first save\n' if cfg['text_mode'] else b'first save\n')
+                        saver.__exit__(None, None, None)
+                    else:
+                        with saver as f0:
+                            f0.write('first save\n' if cfg['text_mode'] else b'first save\n')
                     os.chmod(self.dest, REUSE_MODE)
                 except Exception as e:      # only possible on a retry after a failed run (e.g. a part file was left)
                     self.before = (stat_of(self.dest), stat_of(self.part))
@@ -249,6 +274,22 @@ class Scenario:
             self.before = (stat_of(self.dest), stat_of(self.part))
             self.others_before = sorted(n for n in os.listdir(self.d) if n not in ('dest.txt', 'dest.txt.part'))
             try:
+                if cfg.get('manual'):
+                    import sys as _sys
+                    saver.setup()
+                    f = saver.part_file
+                    try:
+                        for st in self.plan:
+                            if st[0] == 'write':
+                                f.write(st[1] if cfg['text_mode'] else st[1].encode('utf-8'))
+                            elif st[0] == 'raise':
+                                raise self.body_exc('body failed')
+                    except BaseException:
+                        if not saver.__exit__(*_sys.exc_info()):
+                            raise
+                    else:
+                        saver.__exit__(None, None, None)
+                    return None
                 with saver as f:
                     for st in self.plan:
                         if st[0] == 'write':
